@@ -482,3 +482,33 @@ Proof.
     replace (n - 1 - p + p)%nat with (n - 1)%nat by lia. lra.
   - intros i Hi. rewrite app_nth1 by (rewrite repeat_length; lia). rewrite nth_repeat. lra.
 Qed.
+
+(* ---------- rational surfaces and volumes: quotient of the homogeneous tensor-product sums ---------- *)
+Theorem rational_surface_point_is_quotient (Uu Uv : list R) (Pw : list (list R)) (pu pv su sv dim : nat) (u v : R) :
+  sortedR Uu -> sortedR Uv -> wf_net Pw (S dim) -> length Pw = (su * sv)%nat ->
+  (pu < su)%nat -> (pv < sv)%nat -> length Uu = (su + pu + 1)%nat -> length Uv = (sv + pv + 1)%nat ->
+  knR Uu pu <= u < knR Uu su -> knR Uv pv <= v < knR Uv sv ->
+  forall d, (d < dim)%nat ->
+  nth d (obj_surface_point Rops true dim pu pv Uu Uv su sv Pw (u, v)) 0
+  = surface_def Uu Uv pu pv su sv Pw d u v / surface_def Uu Uv pu pv su sv Pw dim u v.
+Proof.
+  intros Hsu Hsv Hwf HLP Hpu Hpv HLu HLv Hu Hv d Hd. unfold obj_surface_point. cbn [fst snd].
+  destruct (surface_point_is_definition Uu Uv Pw pu pv su sv (S dim) u v Hsu Hsv Hwf HLP Hpu Hpv HLu HLv Hu Hv) as [HLr Hn]. cbn zeta in *.
+  rewrite project_nth by (rewrite HLr; lia). rewrite HLr. replace (S dim - 1)%nat with dim by lia.
+  rewrite !Hn by lia. reflexivity.
+Qed.
+
+Theorem rational_volume_point_is_quotient (Uu Uv Uw : list R) (Pw : list (list R)) (pu pv pw su sv sw dim : nat) (u v w : R) :
+  sortedR Uu -> sortedR Uv -> sortedR Uw -> wf_net Pw (S dim) -> length Pw = (su * sv * sw)%nat ->
+  (pu < su)%nat -> (pv < sv)%nat -> (pw < sw)%nat ->
+  length Uu = (su + pu + 1)%nat -> length Uv = (sv + pv + 1)%nat -> length Uw = (sw + pw + 1)%nat ->
+  knR Uu pu <= u < knR Uu su -> knR Uv pv <= v < knR Uv sv -> knR Uw pw <= w < knR Uw sw ->
+  forall d, (d < dim)%nat ->
+  nth d (obj_volume_point Rops true dim pu pv pw Uu Uv Uw su sv sw Pw (u, v, w)) 0
+  = volume_def Uu Uv Uw pu pv pw su sv sw Pw d u v w / volume_def Uu Uv Uw pu pv pw su sv sw Pw dim u v w.
+Proof.
+  intros Hsu Hsv Hsw Hwf HLP Hpu Hpv Hpw HLu HLv HLw Hu Hv Hw d Hd. unfold obj_volume_point.
+  destruct (volume_point_is_definition Uu Uv Uw Pw pu pv pw su sv sw (S dim) u v w Hsu Hsv Hsw Hwf HLP Hpu Hpv Hpw HLu HLv HLw Hu Hv Hw) as [HLr Hn]. cbn zeta in *.
+  rewrite project_nth by (rewrite HLr; lia). rewrite HLr. replace (S dim - 1)%nat with dim by lia.
+  rewrite !Hn by lia. reflexivity.
+Qed.
